@@ -71,7 +71,7 @@ def app_handler(st, hint):
     """A handler installed by the application: a callable object; whether it is truthy is unknown (a callable
     instance may define __bool__ / __len__, e.g. an event object with no subscriber yet)."""
     t = st.fresh_bool(hint + "_truthy")
-    return V.SOpaque("SigHandler", z3.Const(st.fresh_name(hint), S.opaque_sort("SigHandler")), {"callable": True, "truth": lambda st_, v, t=t: t})
+    return V.SOpaque("SigHandler", z3.Const(st.fresh_name(hint), S.opaque_sort("SigHandler")), {"callable": True, "truth": lambda st_, v, t=t: t, "truth_var": t})
 
 
 def any_handler(st, hint):
@@ -240,16 +240,21 @@ def _restore_claims(old, s):
     st = cur()
     t, orig = table(st), st.ghost["orig"]
     sets = [ev for ev in st.trace if ev[0] == "signal"]
-    # "original ... signal handlers restored".
-    # FAILS-ON-TREE: an application handler that is callable but falsy -- class Event: __call__, __len__ -> number of
-    # subscribers (0) -- installed for SIGWINCH / SIGTSTP (or SIGCONT, after a suspend) before screen.start(): after
-    # screen.stop() signal.getsignal(...) is SIG_DFL, not the handler (`prev or signal.SIG_DFL` tests truth, not None).
-    # Replayed on /repo: signal.signal(SIGWINCH, Event()); scr.start(); scr.stop(); signal.getsignal(SIGWINCH) -> 0.
+    # "original ... signal handlers restored"
     for sig in SIGS:
         if sig is CONT and not old._sigcont_hooked:
             yield "SIGCONT-was-never-taken-and-is-left-alone", t[CONT] is orig[CONT]
             continue
-        yield f"exactly-what-was-installed-before-is-back/{sig.name}", t[sig] is put_back(orig[sig])
+        back = t[sig] is put_back(orig[sig])
+        truthy = orig[sig].meta["truth_var"] if isinstance(orig[sig], V.SOpaque) else True
+        yield f"exactly-what-was-installed-before-is-back/{sig.name}", implies(truthy, back)
+        if isinstance(orig[sig], V.SOpaque):
+            # FAILS-ON-TREE: an application handler that is callable but falsy -- class Event: __call__, __len__ -> number
+            # of subscribers (0) -- installed for SIGWINCH / SIGTSTP (or SIGCONT, after a suspend) before screen.start():
+            # after screen.stop() signal.getsignal(...) is SIG_DFL, not the handler (`prev or signal.SIG_DFL` tests
+            # truth, not `is None`).  Replayed on /repo: signal.signal(SIGWINCH, Event()); scr.start(); scr.stop();
+            # signal.getsignal(SIGWINCH) -> 0 (SIG_DFL).
+            yield f"also-a-handler-object-that-is-falsy-is-put-back/{sig.name}", implies(neg(truthy), back)
     yield "SIGCONT-is-no-longer-hooked", s._sigcont_hooked is False
     want = [TSTP] + ([CONT] if old._sigcont_hooked else []) + [WINCH]
     yield "one-call-per-signal-this-screen-had-taken", [ev[1] for ev in sets] == want
